@@ -53,6 +53,8 @@ def _pixel_aperture(c, clsname, params):
     c.hold('aperture', ap)
     if c.geom == 'base':                 # members that do not involve the image: once
         c.members(clsname, ap)
+        if c.extras:
+            _set_attributes(c, clsname, ap)
     c.step(f'{clsname}.area_overlap', lambda: ap.area_overlap(d, mask=m))
     c.step(f'{clsname}.do_photometry', lambda: ap.do_photometry(d, e, m), mix=True)
     c.step(f'{clsname}.do_photometry[center]', lambda: ap.do_photometry(d, e, m, method='center'), mix=True)
@@ -67,6 +69,23 @@ def _pixel_aperture(c, clsname, params):
 def _wcs():
     from photutils.datasets import make_wcs
     return make_wcs(SHAPE)
+
+
+def _set_attributes(c, clsname, ap):
+    """Assignment to the aperture attributes (the descriptor classes of
+    photutils.aperture.attributes): the values assigned are caller-held; the
+    aperture assigned to is a copy (assignment is a mutation of it by design),
+    which is then drawn with a non-zero origin."""
+    import astropy.units as u
+    ap2 = ap.copy()
+    newpos = c.hold('new_positions', np.array(_pos3(c))[::-1].copy())
+    c.step(f'{clsname}.positions = array', lambda: setattr(ap2, 'positions', newpos))
+    vals = {k: getattr(ap, k) for k in ap._params if k != 'positions'}
+    if 'theta' in vals:
+        vals['theta'] = c.hold('new_theta', u.Quantity(25.0, u.deg))
+    c.step(f'{clsname}.<shape attributes> = values', lambda: [setattr(ap2, k, v) for k, v in vals.items()] and None)
+    c.plot_step(f'{clsname}.plot[after assignment]', lambda: ap2.plot(ax=c.plot_ax(), origin=c.plot_origin()))
+    c.step(f'{clsname}.to_mask[after assignment]', lambda: [mk.data for mk in ap2.to_mask(method='center')], keep_output=False)
 
 
 _PIX = {
@@ -96,6 +115,11 @@ def _sky_aperture(c, clsname, params):
         return
     c.hold('aperture', ap)
     c.members(clsname, ap)
+    if c.extras:     # assignment to the attributes (descriptor classes SkyCoordPositions / [Positive]ScalarAngle), on a copy
+        ap2 = ap.copy()
+        c.step(f'{clsname}.<attributes> = values', lambda: [setattr(ap2, k, sky if k == 'positions' else getattr(ap, k))
+                                                             for k in ap._params] and None)
+        c.step(f'{clsname}.to_pixel[after assignment]', lambda: ap2.to_pixel(wcs), keep_output=False)
     c.step(f'{clsname}.to_pixel', lambda: ap.to_pixel(wcs))
     c.step(f'aperture_photometry[{clsname}]', lambda: pa.aperture_photometry(d, ap, error=e, mask=m, wcs=wcs), mix=True)
     c.step(f'ApertureStats[{clsname}].sum', lambda: pa.ApertureStats(d, ap, error=e, mask=m, wcs=wcs).sum, mix=True)
@@ -133,6 +157,19 @@ def _aperture_mask(c):
     c.step('ApertureMask.cutout[edge]', lambda: am2.cutout(d, fill_value=0.0))
     c.step('ApertureMask.multiply[edge]', lambda: am2.multiply(d))
     c.step('ApertureMask.get_values[edge]', lambda: am2.get_values(d, mask=m))
+
+
+@recipe('BoundingBox', ['aperture.bounding_box.BoundingBox'], numeric=False, axes=())
+def _bounding_box(c):
+    from photutils.aperture import BoundingBox
+    bb = c.step('BoundingBox', lambda: BoundingBox(11, 20, 10, 19))
+    if bb is None:
+        return
+    c.hold('bbox', bb)
+    c.hold('other_bbox', BoundingBox(15, 25, 5, 12))
+    c.step('BoundingBox.from_float', lambda: BoundingBox.from_float(10.6, 19.4, 9.5, 18.5))
+    c.members('BoundingBox', bb)         # extras: as_artist / plot (origin != 0), get_overlap_slices, union, intersection
+    c.step('BoundingBox == other', lambda: (bb == c.held['other_bbox'], bb | c.held['other_bbox'], bb & c.held['other_bbox']))
 
 
 @recipe('aperture_photometry', ['aperture.photometry.aperture_photometry'], nddata=True, units=True, geoms=G_ALL)
@@ -218,7 +255,7 @@ def _background2d(c):
         return _background2d_layout(c)
     d = c.data(nddata_ok=True)
     m = c.mask(even_for_nddata=True)     # Background2D takes data and unit from an NDData, the mask from the keyword
-    cov = c.hold('coverage_mask', _coverage())
+    cov = c.own_mask('coverage_mask', _coverage())
     b = c.step('Background2D', lambda: Background2D(d, (10, 12), mask=m, coverage_mask=cov, filter_size=3))
     c.members('Background2D', b)
     b2 = c.step('Background2D[box=image]', lambda: Background2D(d, SHAPE, mask=m, filter_size=1, exclude_percentile=50.0))
@@ -239,7 +276,7 @@ def _background2d_layout(c):
     m = c.mask(even_for_nddata=True)
     cov = np.zeros(c.shape, bool)
     cov[-1:, -2:] = True                 # a corner (lies in the partial corner box when there is one)
-    cov = c.hold('coverage_mask', cov)
+    cov = c.own_mask('coverage_mask', cov)
     lab = f'Background2D[{c.geom}]'
     b = c.step(lab, lambda: Background2D(d, box, mask=m, coverage_mask=cov, filter_size=1, edge_method=edge,
                                          exclude_percentile=50.0))
@@ -275,6 +312,8 @@ def _estimator(c, name):
     c.step(f'{name}[axis=1, masked]', lambda: est(d, axis=1, masked=True))
     c.step(f'{name}[no clip]', lambda: est0(d))
     c.step(f'{name}[no clip, axis=1]', lambda: est0(d, axis=1))
+    if c.extras:
+        c.members(name, est)
 
 
 for _n in _BKG + _RMS:
@@ -452,6 +491,8 @@ def _dao(c):
     if f is not None:
         c.step('DAOStarFinder()', lambda: f(d, mask=m), mix=True)
         c.step('DAOStarFinder.find_stars', lambda: f.find_stars(d, mask=m))
+        if c.extras:
+            c.members('DAOStarFinder', f)
     f2 = c.step('DAOStarFinder[xycoords]', lambda: DAOStarFinder(c.q(50.0, 'threshold'), 4.0, xycoords=xy, brightest=2, ratio=0.8, theta=30.0))
     if f2 is not None:
         c.step('DAOStarFinder[xycoords]()', lambda: f2(d, mask=m), mix=True)
@@ -465,6 +506,8 @@ def _iraf(c):
     f = c.step('IRAFStarFinder', lambda: IRAFStarFinder(c.q(50.0, 'threshold'), 4.0, peakmax=c.q(5000.0, 'peakmax'), roundhi=1.0, sharplo=0.0))
     if f is not None:
         c.step('IRAFStarFinder()', lambda: f(d, mask=m), mix=True)
+        if c.extras:
+            c.members('IRAFStarFinder', f)
     f2 = c.step('IRAFStarFinder[xycoords]', lambda: IRAFStarFinder(c.q(50.0, 'threshold'), 4.0, xycoords=xy, brightest=2, roundhi=1.0, sharplo=0.0))
     if f2 is not None:
         c.step('IRAFStarFinder[xycoords]()', lambda: f2(d, mask=m), mix=True)
@@ -489,6 +532,8 @@ def _starfinder(c):
     if f is not None:
         c.step('StarFinder()', lambda: f(d, mask=m), mix=True)
         c.step('StarFinder.find_stars', lambda: f.find_stars(d, mask=m))
+        if c.extras:
+            c.members('StarFinder', f)
 
 
 @recipe('StarFinder[integer-valued kernel]', ['detection.starfinder.StarFinder'], units=True)
@@ -693,6 +738,8 @@ def _gridded(c):
     c.step('GriddedPSFModel()[other position]', lambda: (setattr(mdl, 'x_0', 30.0), mdl(x, y), setattr(mdl, 'x_0', 15.2))[1])
     c.step('GriddedPSFModel.copy', lambda: mdl.copy()(x, y))
     c.step('GriddedPSFModel.deepcopy', lambda: mdl.deepcopy()(x, y))
+    if c.extras:
+        c.members('GriddedPSFModel', mdl, own=True, only=('plot_grid', 'origin', 'oversampling'))
 
 
 @recipe('grid_from_epsfs', ['psf.model_helpers.grid_from_epsfs'], numeric=False, axes=())
@@ -883,6 +930,8 @@ def _epsf(c):
     if c.cond in ('masked', 'nonfinite'):
         m = np.zeros(SHAPE, bool)
         m[14, 16] = True
+    elif c.sc['mask'] is not None:           # the mask form of the run: an all-False NDData mask ('negatives', mask form 'empty')
+        m = np.zeros(SHAPE, bool)
     if c.geom != 'base':
         # the 9x9 star cutout is the whole image ('tight') / spans every column of the image ('fullwidth')
         err = c.clean('error')
@@ -998,6 +1047,13 @@ def _source_catalog(c):
     c.step('SourceCatalog.make_cutouts', lambda: [None if x is None else x.data for x in cat.make_cutouts((9, 9))])
     c.step('SourceCatalog.get_labels', lambda: cat.get_labels([1, 2] if c.geom == 'base' else [1]).to_table())
     c.step('SourceCatalog[0]', lambda: cat[0].to_table())
+    if c.extras:
+        # documented mutators of the catalog: the value array passed in stays the caller's
+        vals = c.hold('extra_property_values', np.arange(cat.nlabels, dtype=float) + 0.5)
+        c.step('SourceCatalog.add_extra_property', lambda: cat.add_extra_property('myprop', vals))
+        c.step('SourceCatalog.myprop', lambda: (cat.myprop, cat.to_table(columns=['label', 'myprop'])), keep_output=False)
+        c.step('SourceCatalog.rename_extra_property', lambda: cat.rename_extra_property('myprop', 'myprop2'))
+        c.step('SourceCatalog.remove_extra_property', lambda: cat.remove_extra_property('myprop2'))
 
 
 def _kernel():
@@ -1046,6 +1102,15 @@ def _segmentation_image(c):
     c.step('SegmentationImage.remove_masked_labels', lambda: segm.remove_masked_labels(mm, partial_overlap=False))
     c.step('SegmentationImage.remove_border_labels', lambda: segm.remove_border_labels(1, relabel=True))
     c.step('SegmentationImage.relabel_consecutive', lambda: segm.relabel_consecutive(start_label=3))
+    if c.extras and segm.nlabels >= 1:
+        # the other mutators: they change the SegmentationImage, never the label arrays passed to them
+        labs = c.hold('labels_arg', np.array(segm.labels[:2]))
+        c.step('SegmentationImage.reassign_labels', lambda: segm.reassign_labels(labs, new_label=int(segm.max_label) + 5, relabel=False))
+        keep = c.hold('labels_arg[keep]', np.array(segm.labels[-2:]))
+        c.step('SegmentationImage.keep_labels', lambda: segm.keep_labels(keep, relabel=True))
+        rem = c.hold('labels_arg[remove]', np.array(segm.labels[:1]))
+        c.step('SegmentationImage.remove_labels', lambda: segm.remove_labels(rem))
+        c.step('SegmentationImage.reset_cmap', lambda: segm.reset_cmap(seed=3))
 
 
 @recipe('detect_threshold', ['segmentation.detect.detect_threshold'], units=True, geoms=G_LINE + ('tight',))
@@ -1136,18 +1201,26 @@ def _cutout_image(c):
 
 @recipe('ImageDepth', ['utils.depths.ImageDepth'], units=False)
 def _image_depth(c):
+    """Full product of the mask forms the ``mask`` argument documents -- a mask
+    of the sources and of the pixels of the scene's mask argument (some True),
+    an all-False array (nothing to mask: a blank field), None -- with two
+    configurations (no overlap / overlap + mask_pad).  The masks have the
+    memory layout of the representation (views of a larger array in 'view')."""
     from photutils.utils import ImageDepth
     d = c.data()
-    m = c.mask()
-    if m is None:
-        m = c.hold('mask', np.zeros(SHAPE, bool))
     src = _segm(c).make_source_mask(size=5)
-    sm = c.hold('source_mask', src | m)
-    depth = ImageDepth(2.0, nsigma=5.0, napers=15, niters=2, overlap=False, seed=1, zeropoint=23.9, progress_bar=False)
-    c.step('ImageDepth()', lambda: depth(d, sm))
-    c.step('ImageDepth.apertures', lambda: [a.positions for a in depth.apertures])
-    depth2 = ImageDepth(2.0, nsigma=5.0, mask_pad=2, napers=15, niters=2, overlap=True, seed=1, progress_bar=False)
-    c.step('ImageDepth[overlap, mask_pad]()', lambda: depth2(d, sm))
+    bad = c.sc['mask'] if c.sc['mask'] is not None else np.zeros(SHAPE, bool)
+    forms = (('source mask', c._log_mask('source_mask', c.array('source_mask', src | bad, kind='aux'))),
+             ('all-False mask', c._log_mask('empty_mask', c.array('empty_mask', np.zeros(SHAPE, bool), kind='aux'))),
+             ('no mask', None))
+    for form, sm in forms:
+        depth = ImageDepth(2.0, nsigma=5.0, napers=15, niters=2, overlap=False, seed=1, zeropoint=23.9, progress_bar=False)
+        c.step(f'ImageDepth[{form}]()', lambda: depth(d, sm))
+        c.step(f'ImageDepth[{form}].apertures', lambda: [a.positions for a in depth.apertures])
+        depth2 = ImageDepth(2.0, nsigma=5.0, mask_pad=2, napers=15, niters=2, overlap=True, seed=1, progress_bar=False)
+        c.step(f'ImageDepth[{form}; overlap, mask_pad]()', lambda: depth2(d, sm))
+        if c.extras and form == 'source mask':
+            c.plot_step('ImageDepth.apertures[0].plot', lambda: depth.apertures[0].plot(ax=c.plot_ax(), origin=c.plot_origin(), color='orange'))
 
 
 @recipe('calc_total_error', ['utils.errors.calc_total_error'], units=True, geoms=G_LINE)
@@ -1183,3 +1256,108 @@ def _shepard(c):
     f1 = c.step('ShepardIDWInterpolator[1D]', lambda: ShepardIDWInterpolator(x1, np.cos(x1)))
     if f1 is not None:
         c.step('ShepardIDWInterpolator[1D]()', lambda: f1(np.array([0.5, 3.3])))
+
+
+# --------------------------------------------------------------------------
+# C10 additions: geometry state object, PSF grid files, callables without an array argument
+# --------------------------------------------------------------------------
+@recipe('EllipseGeometry', ['isophote.geometry.EllipseGeometry'], numeric=False)
+def _ellipse_geometry(c):
+    from photutils.isophote import EllipseGeometry
+    d = _sub(c)
+    g = c.step('EllipseGeometry', lambda: EllipseGeometry(31.0, 20.0, 4.0, 0.1, 0.1, astep=0.2, linear_growth=True))
+    # the geometry is a state object (not watched); watched: the image passed to find_center and the coordinate arrays
+    c.step('EllipseGeometry.initialize_sector_geometry', lambda: g.initialize_sector_geometry(0.3))
+    c.members('EllipseGeometry', g)
+
+
+PSF_TEST_DATA = ('psf', 'tests', 'data')
+STDPSF_FILE = 'STDPSF_NRCA1_F150W_mock.fits'
+STDPSF_MULTI_FILE = 'STDPSF_ACSWFC_F814W_mock.fits'
+WEBBPSF_FILE = 'nircam_nrca1_f200w_fovp101_samp4_npsf4_mock.fits'
+
+
+def _psf_file(name):
+    import os
+    import photutils
+    return os.path.join(os.path.dirname(photutils.__file__), *PSF_TEST_DATA, name)
+
+
+def _file_bytes(path):
+    """The file on disk as a caller-held object (its bytes are watched)."""
+    with open(path, 'rb') as fh:
+        return np.frombuffer(fh.read(), np.uint8)
+
+
+@recipe('psf_grid_files', ['psf.gridded_models.STDPSFGrid', 'psf.model_io.GriddedPSFModelRead', 'psf.model_io.stdpsf_reader',
+                           'psf.model_io.webbpsf_reader', 'datasets.load.get_path'], numeric=False, axes=())
+def _psf_grid_files(c):
+    """The file readers, on the mock grid files shipped with photutils (no
+    network).  Caller-held: the files themselves (their bytes are compared)."""
+    from photutils.datasets import get_path
+    from photutils.psf import GriddedPSFModel, STDPSFGrid
+    from photutils.psf.model_io import stdpsf_reader, webbpsf_reader
+    files = {k: _psf_file(k) for k in (STDPSF_FILE, STDPSF_MULTI_FILE, WEBBPSF_FILE)}
+    for k, path in files.items():
+        c.hold(f'file:{k}', {'bytes': _file_bytes(path)})
+    yy, xx = np.mgrid[0:9, 0:9]
+    x = c.hold('x', xx + 100.0)
+    y = c.hold('y', yy + 200.0)
+
+    def reread(label, thunk):
+        # the watched object is the file on disk: re-read it into the held dict before the comparison of the step
+        def run():
+            try:
+                return thunk()
+            finally:
+                for k, path in files.items():
+                    c.held[f'file:{k}']['bytes'] = _file_bytes(path)
+        return c.step(label, run)
+    grid = reread('STDPSFGrid', lambda: STDPSFGrid(files[STDPSF_FILE]))
+    if grid is not None:
+        c.hold('stdpsf_grid', grid)
+        c.members('STDPSFGrid', grid)          # extras: plot_grid
+        c.step('STDPSFGrid.__str__', lambda: str(grid))
+    m1 = reread('stdpsf_reader', lambda: stdpsf_reader(files[STDPSF_FILE]))
+    reread('stdpsf_reader[detector_id]', lambda: stdpsf_reader(files[STDPSF_MULTI_FILE], detector_id=2))
+    m2 = reread('webbpsf_reader', lambda: webbpsf_reader(files[WEBBPSF_FILE]))
+    m3 = reread('GriddedPSFModel.read', lambda: GriddedPSFModel.read(files[STDPSF_FILE]))
+    reread('GriddedPSFModel.read[format=webbpsf]', lambda: GriddedPSFModel.read(files[WEBBPSF_FILE], format='webbpsf'))
+    for lab, mdl in (('stdpsf_reader', m1), ('webbpsf_reader', m2), ('GriddedPSFModel.read', m3)):
+        if mdl is not None:
+            c.hold(f'model[{lab}]', mdl)
+            c.step(f'{lab}()', lambda: mdl.evaluate(x, y, 1000.0, 104.2, 203.7))
+            c.members(lab, mdl, own=True, only=('plot_grid', 'origin', 'oversampling'))
+    c.step('get_path', lambda: get_path('4gaussians_params.ecsv', location='local'))
+
+
+@recipe('callables_without_array_argument',
+        ['datasets.examples.make_100gaussians_image', 'datasets.examples.make_4gaussians_image', 'datasets.noise.make_noise_image',
+         'datasets.wcs.make_gwcs', 'datasets.wcs.make_wcs', 'geometry.circular_overlap.circular_overlap_grid',
+         'geometry.elliptical_overlap.elliptical_overlap_grid', 'geometry.rectangular_overlap.rectangular_overlap_grid',
+         'segmentation.utils.make_2dgaussian_kernel', 'utils.colormaps.make_random_cmap', 'utils.footprints.circular_footprint',
+         'utils.exceptions.NoDetectionsWarning'], numeric=False, axes=())
+def _no_array_argument(c):
+    """Callables whose arguments are a shape and scalars: the shape is handed
+    over as a list the caller holds; nothing else can be modified, the calls
+    are made so that every public callable has been executed."""
+    from photutils.datasets import (make_4gaussians_image, make_100gaussians_image, make_gwcs, make_noise_image, make_wcs)
+    from photutils.geometry import circular_overlap_grid, elliptical_overlap_grid, rectangular_overlap_grid
+    from photutils.segmentation import make_2dgaussian_kernel
+    from photutils.utils import circular_footprint, make_random_cmap
+    from photutils.utils.exceptions import NoDetectionsWarning
+    shape = c.hold('shape', [41, 47])
+    c.step('make_noise_image[gaussian]', lambda: make_noise_image(shape, distribution='gaussian', mean=5.0, stddev=2.0, seed=1))
+    c.step('make_noise_image[poisson]', lambda: make_noise_image(shape, distribution='poisson', mean=5.0, seed=1))
+    c.step('make_wcs', lambda: make_wcs(shape, galactic=True).wcs.crval)
+    c.step('make_gwcs', lambda: make_gwcs(shape).bounding_box)
+    c.step('make_4gaussians_image', lambda: make_4gaussians_image(noise=False))
+    c.step('make_4gaussians_image[noise]', lambda: make_4gaussians_image())
+    c.step('make_100gaussians_image', lambda: make_100gaussians_image(noise=False))
+    c.step('make_2dgaussian_kernel', lambda: make_2dgaussian_kernel(3.0, size=5, mode='center').array)
+    c.step('circular_footprint', lambda: circular_footprint(3, dtype=bool))
+    c.step('make_random_cmap', lambda: make_random_cmap(ncolors=8, seed=1).colors)
+    c.step('circular_overlap_grid', lambda: circular_overlap_grid(-4.5, 4.5, -4.5, 4.5, 9, 9, 4.0, 1, 1))
+    c.step('elliptical_overlap_grid', lambda: elliptical_overlap_grid(-5.5, 5.5, -5.5, 5.5, 11, 11, 5.0, 3.0, 0.4, 0, 3))
+    c.step('rectangular_overlap_grid', lambda: rectangular_overlap_grid(-5.5, 5.5, -5.5, 5.5, 11, 11, 7.0, 4.0, 0.4, 0, 3))
+    c.step('NoDetectionsWarning', lambda: str(NoDetectionsWarning('no sources')))
